@@ -514,7 +514,7 @@ func (e *env) assigned(stmts []ast.Stmt, out map[string]bool) {
 				}
 			case *ast.CallExpr:
 				txt := e.t.p.str(v.Fun)
-				if txt == "atomic.StoreUint32" {
+				if txt == "atomic.StoreUint32" || txt == "atomic.AddUint32" {
 					out[e.rname] = true
 				}
 				if sel, ok := v.Fun.(*ast.SelectorExpr); ok {
@@ -698,6 +698,16 @@ func (e *env) block(stmts []ast.Stmt, fall string, ind string) string {
 				e.fail("expression statement")
 			}
 			txt := e.t.p.str(call.Fun)
+			if txt == "atomic.AddUint32" {
+				f, ok := e.recvField(call.Args[0])
+				if !ok {
+					e.fail("atomic add target")
+				}
+				e.useField(f)
+				x, _ := e.rhs(call.Args[1])
+				sb.WriteString(fmt.Sprintf("%slet %s := { %s with %s := (u32 (%s.%s + %s)) }\n", ind, e.rname, e.rname, leanIdent(f), e.rname, leanIdent(f), x))
+				continue
+			}
 			if txt == "atomic.StoreUint32" {
 				f, ok := e.recvField(call.Args[0])
 				if !ok {
@@ -1235,6 +1245,10 @@ func transAll(v1, v2 *pkg) string {
 		{file: "batcher.go", recv: "Batcher", name: "trySetTargetToZero", lean: "v1_trySetTargetToZero"},
 		{file: "batcher.go", recv: "Batcher", name: "applyDefaults", lean: "v1_applyDefaults", view: "_cfg"},
 		{file: "batcher.go", recv: "Batcher", name: "Enqueue", lean: "v1_enqueueAdmit", until: "r.incTarget", opaque: true, view: "_cfg"},
+		{file: "operation.go", recv: "Operation", name: "MakeAttempt", lean: "v1_op_MakeAttempt"},
+		{file: "operation.go", recv: "Operation", name: "Attempt", lean: "v1_op_Attempt"},
+		{file: "operation.go", recv: "Operation", name: "Cost", lean: "v1_op_Cost"},
+		{file: "operation.go", recv: "Operation", name: "IsBatchable", lean: "v1_op_IsBatchable"},
 		{file: "azure-shared-resource.go", recv: "AzureSharedResource", name: "MaxCapacity", lean: "v1_sr_MaxCapacity"},
 		{file: "azure-shared-resource.go", recv: "AzureSharedResource", name: "Capacity", lean: "v1_sr_Capacity"},
 		{file: "azure-shared-resource.go", recv: "AzureSharedResource", name: "calc", lean: "v1_sr_calc"},
@@ -1251,6 +1265,10 @@ func transAll(v1, v2 *pkg) string {
 		{file: "batcher.go", recv: "batcher", name: "confirmTargetIsZero", lean: "v2_confirmTargetIsZero"},
 		{file: "batcher.go", recv: "batcher", name: "applyDefaults", lean: "v2_applyDefaults", view: "_cfg"},
 		{file: "batcher.go", recv: "batcher", name: "Enqueue", lean: "v2_enqueueAdmit", until: "r.incTarget", opaque: true, view: "_cfg"},
+		{file: "operation.go", recv: "operation", name: "MakeAttempt", lean: "v2_op_MakeAttempt"},
+		{file: "operation.go", recv: "operation", name: "Attempt", lean: "v2_op_Attempt"},
+		{file: "operation.go", recv: "operation", name: "Cost", lean: "v2_op_Cost"},
+		{file: "operation.go", recv: "operation", name: "IsBatchable", lean: "v2_op_IsBatchable"},
 		{file: "shared-resource.go", recv: "sharedResource", name: "MaxCapacity", lean: "v2_sr_MaxCapacity"},
 		{file: "shared-resource.go", recv: "sharedResource", name: "Capacity", lean: "v2_sr_Capacity"},
 		{file: "shared-resource.go", recv: "sharedResource", name: "calc", lean: "v2_sr_calc"},
